@@ -18,6 +18,16 @@ CHECKS = {
         design="5/C19", engine="validator"),
 }
 
+CHECKS["C10"] = dict(
+    text="Kernel-checked theorems over the *regenerated* tolerance function (100% in the skip period, >= threshold, <= 100%, "
+         "antitone in elapsed, for all durations/thresholds), over a model of the validation step (non-ok verdict iff started and "
+         "(ended or silence > share timeout or under target by more than the tolerance); over-delivery, grace period, end of contract "
+         "never a delivery fault) and over the close/retry loop (reason matches cause over the regenerated errors.Is chain, k failures "
+         "=> k+1 transactions with the same reason, closed-first => no transaction). The real GetMaxGlobalError and the real "
+         "checkIncomingHashrate (virtual time) are run against the definitions on boundary grids and seeded inputs.",
+    technique="Lean 4 proofs over Go->Lean translated definitions (Rat) + differential correspondence",
+    design="5/C10", engine="contract")
+
 NOT_YET = {}
 
 ALL = ["C%02d" % i for i in range(1, 21)]
